@@ -9,20 +9,24 @@ Local Open Scope Z_scope.
 (* an item: datatype, count, the count * size bytes the emulation reads (contiguous) *)
 Definition item := (Z * Z * list Z)%type.
 Definition it_data (it : item) : list Z := snd it.
-(* count * size < 2^31: the domain of sc_MPI_Pack_size (its product is an `int`, F-C16d) *)
-Definition item_ok (it : item) : Prop := let '(t, n, d) := it in valid_dt t /\ 0 <= n /\ len d = n * type_size t /\ len d < 2 ^ 31.
+(* the count is an `int`; the byte count n * size need NOT be representable: such an item is refused (F-C16d repaired) *)
+Definition item_ok (it : item) : Prop := let '(t, n, d) := it in valid_dt t /\ 0 <= n < 2 ^ 31 /\ len d = n * type_size t.
 Definition total (items : list item) : Z := fold_right (fun it a => len (it_data it) + a) 0 items.
 
 (* ---- one call, as list surgery ---- *)
-Lemma pack_step t n d buf pos : valid_dt t -> 0 <= n -> len d = n * type_size t -> len d < 2 ^ 31 -> 0 <= pos < 2 ^ 31 ->
+Lemma pack_step t n d buf pos : valid_dt t -> 0 <= n < 2 ^ 31 -> len d = n * type_size t -> 0 <= pos < 2 ^ 31 ->
   len buf < 2 ^ 31 ->
   sc_pack d n t buf (len buf) pos =
   if pos + len d <=? len buf then (SUCCESS, Some (take pos buf ++ d ++ drop (pos + len d) buf), pos + len d)
   else (ERR_NO_SPACE, Some buf, pos).
 Proof.
-  intros Hv Hn Hd Hds Hp Hb. pose proof (dt_bounds t Hv) as (Hb1 & Hb2). pose proof (len_nonneg d) as Hd0.
+  intros Hv Hn Hd Hp Hb. pose proof (dt_bounds t Hv) as (Hb1 & Hb2). pose proof (len_nonneg d) as Hd0.
   pose proof (len_nonneg buf) as Hbuf0.
-  unfold sc_pack, pack_copy. rewrite (pack_bytes_small n t Hv Hn ltac:(lia)). rewrite <- Hd.
+  unfold sc_pack, pack_copy. cbv zeta. destruct (pack_size_exact n t Hv Hn) as (Hrep & Hnot).
+  destruct (Z_lt_ge_dec (n * type_size t) (2 ^ 31)) as [Hds|Hbig].
+  2: { destruct (Hnot ltac:(lia)) as (-> & ->). change (negb (ERR_NO_SPACE =? SUCCESS)) with true. cbv iota.
+       replace (pos + len d <=? len buf) with false by (symmetry; apply Z.leb_gt; lia). reflexivity. }
+  destruct (Hrep Hds) as (-> & ->). change (negb (SUCCESS =? SUCCESS)) with false. cbv iota. rewrite <- Hd.
   destruct (pack_arith pos (len d) (len buf) Hp ltac:(lia) ltac:(lia)) as (-> & -> & Hadv).
   rewrite Z.gtb_ltb. destruct (pos + len d <=? len buf) eqn:E.
   - apply Z.leb_le in E. rewrite (Hadv E). replace (len buf <? pos + len d) with false by (symmetry; apply Z.ltb_ge; lia).
@@ -34,15 +38,19 @@ Proof.
   - apply Z.leb_gt in E. replace (len buf <? pos + len d) with true by (symmetry; apply Z.ltb_lt; lia). reflexivity.
 Qed.
 
-Lemma unpack_step t n o buf pos : valid_dt t -> 0 <= n -> n * type_size t <= len o -> n * type_size t < 2 ^ 31 ->
+Lemma unpack_step t n o buf pos : valid_dt t -> 0 <= n < 2 ^ 31 -> n * type_size t <= len o ->
   0 <= pos < 2 ^ 31 -> len buf < 2 ^ 31 ->
   sc_unpack buf (len buf) pos o n t =
   if pos + n * type_size t <=? len buf
   then (SUCCESS, Some (take (n * type_size t) (drop pos buf) ++ drop (n * type_size t) o), pos + n * type_size t)
   else (ERR_NO_SPACE, Some o, pos).
 Proof.
-  intros Hv Hn Ho Hks Hp Hb. pose proof (dt_bounds t Hv) as (Hb1 & Hb2). pose proof (len_nonneg buf) as Hbuf0.
-  unfold sc_unpack, unpack_copy. rewrite (pack_bytes_small n t Hv Hn Hks).
+  intros Hv Hn Ho Hp Hb. pose proof (dt_bounds t Hv) as (Hb1 & Hb2). pose proof (len_nonneg buf) as Hbuf0.
+  unfold sc_unpack, unpack_copy. cbv zeta. destruct (pack_size_exact n t Hv Hn) as (Hrep & Hnot).
+  destruct (Z_lt_ge_dec (n * type_size t) (2 ^ 31)) as [Hks|Hbig].
+  2: { destruct (Hnot ltac:(lia)) as (-> & ->). change (negb (ERR_NO_SPACE =? SUCCESS)) with true. cbv iota.
+       replace (pos + n * type_size t <=? len buf) with false by (symmetry; apply Z.leb_gt; lia). reflexivity. }
+  destruct (Hrep Hks) as (-> & ->). change (negb (SUCCESS =? SUCCESS)) with false. cbv iota.
   set (k := n * type_size t) in *. assert (Hk : 0 <= k) by (unfold k; nia).
   destruct (pack_arith pos k (len buf) Hp ltac:(lia) ltac:(lia)) as (-> & -> & Hadv).
   rewrite Z.gtb_ltb. destruct (pos + k <=? len buf) eqn:E.
@@ -106,10 +114,10 @@ Proof.
   induction items as [|[[t n] d] r IH]; intros buf pos Hok Hp Hb.
   - cbn [pack_seq total fold_right map concat app positions]. rewrite Z.add_0_r.
     split; [lia|]. split; [reflexivity|]. split; [reflexivity|]. symmetry. apply take_drop_id.
-  - inversion Hok as [|x l Hit Hr]; subst. destruct Hit as (Hv & Hn & Hd & Hds).
+  - inversion Hok as [|x l Hit Hr]; subst. destruct Hit as (Hv & Hn & Hd).
     cbn [total fold_right it_data snd] in *. fold (total r) in *.
     pose proof (total_nonneg r) as Ht. pose proof (len_nonneg d) as Hd0.
-    cbn [pack_seq]. rewrite (pack_step t n d buf pos Hv Hn Hd Hds ltac:(lia) Hb).
+    cbn [pack_seq]. rewrite (pack_step t n d buf pos Hv Hn Hd ltac:(lia) Hb).
     destruct (pos + len d <=? len buf) eqn:E.
     + apply Z.leb_le in E. rewrite success_refl.
       set (b1 := take pos buf ++ d ++ drop (pos + len d) buf).
@@ -147,7 +155,7 @@ Proof.
   induction items as [|[[t n] d] r IH]; intros outs pre post pos Hok Hf Hpre Hb.
   - inversion Hf; subst. cbn. rewrite Z.add_0_r. reflexivity.
   - inversion Hf as [|x o l outs' Hlo Hf']; subst. inversion Hok as [|x l Hit Hr]; subst.
-    destruct Hit as (Hv & Hn & Hd & Hds). cbn [it_data snd] in Hlo.
+    destruct Hit as (Hv & Hn & Hd). cbn [it_data snd] in Hlo.
     cbn [total fold_right it_data snd] in *. fold (total r) in *.
     pose proof (total_nonneg r) as Ht. pose proof (len_nonneg d) as Hd0. pose proof (len_nonneg pre) as Hp0.
     cbn [shape_of combine map unpack_seq delivered positions it_data snd concat].
@@ -156,7 +164,7 @@ Proof.
       by (unfold buf; rewrite !len_app; lia).
     pose proof (len_nonneg (concat (map it_data r))). pose proof (len_nonneg post).
     cbn [map concat it_data snd] in Hb. fold buf in Hb.
-    rewrite (unpack_step t n o buf (len pre) Hv Hn ltac:(lia) ltac:(lia) ltac:(lia) Hb).
+    rewrite (unpack_step t n o buf (len pre) Hv Hn ltac:(lia) ltac:(lia) Hb).
     rewrite <- Hd. replace (len pre + len d <=? len buf) with true by (symmetry; apply Z.leb_le; lia).
     rewrite success_refl.
     assert (Hdata : take (len d) (drop (len pre) buf) = d).
@@ -206,7 +214,7 @@ Qed.
 
 (* two consecutive Packs of the same datatype are one Pack of the concatenated data *)
 Theorem pack_twice_is_pack_once t n1 n2 d1 d2 buf pos : item_ok (t, n1, d1) -> item_ok (t, n2, d2) ->
-  0 <= pos <= len buf -> len buf < 2 ^ 31 -> len d1 + len d2 < 2 ^ 31 ->
+  0 <= pos <= len buf -> len buf < 2 ^ 31 -> n1 + n2 < 2 ^ 31 ->
   match pack_seq [(t, n1, d1); (t, n2, d2)] buf pos, pack_seq [(t, n1 + n2, d1 ++ d2)] buf pos with
   | Some (b, p, _), Some (b', p', _) => b = b' /\ p = p'
   | None, None => True
@@ -215,7 +223,7 @@ Theorem pack_twice_is_pack_once t n1 n2 d1 d2 buf pos : item_ok (t, n1, d1) -> i
 Proof.
   intros H1 H2 Hp Hb Hsum.
   assert (H12 : item_ok (t, n1 + n2, d1 ++ d2)).
-  { destruct H1 as (Hv & Hn1 & Hd1 & _). destruct H2 as (_ & Hn2 & Hd2 & _). split; [assumption|]. split; [lia|]. rewrite len_app. split; lia. }
+  { destruct H1 as (Hv & Hn1 & Hd1). destruct H2 as (_ & Hn2 & Hd2). split; [assumption|]. split; [lia|]. rewrite len_app. lia. }
   pose proof (pack_seq_spec [(t, n1, d1); (t, n2, d2)] buf pos (Forall_cons _ H1 (Forall_cons _ H2 (Forall_nil _))) Hp Hb) as Ha.
   pose proof (pack_seq_spec [(t, n1 + n2, d1 ++ d2)] buf pos (Forall_cons _ H12 (Forall_nil _)) Hp Hb) as Hb'.
   cbn [total fold_right it_data snd map concat] in Ha, Hb'. rewrite len_app in Hb'. rewrite app_nil_r in *.
@@ -234,7 +242,7 @@ Theorem pack_boundary t n d buf pos : item_ok (t, n, d) -> 0 <= pos <= len buf -
   (* nothing to pack: accepted at every legal position including position = size; nothing changes *)
   (n = 0 -> sc_pack d n t buf (len buf) pos = (SUCCESS, Some buf, pos)).
 Proof.
-  intros (Hv & Hn & Hd & Hds) Hp Hb. rewrite (pack_step t n d buf pos Hv Hn Hd Hds ltac:(lia) Hb). repeat split.
+  intros (Hv & Hn & Hd) Hp Hb. rewrite (pack_step t n d buf pos Hv Hn Hd ltac:(lia) Hb). repeat split.
   - intros E. replace (pos + len d <=? len buf) with true by (symmetry; apply Z.leb_le; lia).
     rewrite E. rewrite (drop_all (len buf) buf) by lia. rewrite app_nil_r. reflexivity.
   - intros E. replace (pos + len d <=? len buf) with false by (symmetry; apply Z.leb_gt; lia). reflexivity.
@@ -242,7 +250,7 @@ Proof.
     replace (pos <=? len buf) with true by (symmetry; apply Z.leb_le; lia). cbn [app]. rewrite take_drop_id. reflexivity.
 Qed.
 
-Theorem unpack_boundary t n o buf pos : valid_dt t -> 0 <= n -> n * type_size t <= len o -> n * type_size t < 2 ^ 31 ->
+Theorem unpack_boundary t n o buf pos : valid_dt t -> 0 <= n < 2 ^ 31 -> n * type_size t <= len o ->
   0 <= pos <= len buf -> len buf < 2 ^ 31 ->
   (* the request ends at the end of the message: accepted, the position becomes the size *)
   (pos + n * type_size t = len buf ->
@@ -250,7 +258,7 @@ Theorem unpack_boundary t n o buf pos : valid_dt t -> 0 <= n -> n * type_size t 
   (pos + n * type_size t = len buf + 1 -> sc_unpack buf (len buf) pos o n t = (ERR_NO_SPACE, Some o, pos)) /\
   (n = 0 -> sc_unpack buf (len buf) pos o n t = (SUCCESS, Some o, pos)).
 Proof.
-  intros Hv Hn Ho Hks Hp Hb. rewrite (unpack_step t n o buf pos Hv Hn Ho Hks ltac:(lia) Hb). repeat split.
+  intros Hv Hn Ho Hp Hb. rewrite (unpack_step t n o buf pos Hv Hn Ho ltac:(lia) Hb). repeat split.
   - intros E. replace (pos + n * type_size t <=? len buf) with true by (symmetry; apply Z.leb_le; lia).
     rewrite E. rewrite take_all by (rewrite len_drop_le by lia; lia). reflexivity.
   - intros E. replace (pos + n * type_size t <=? len buf) with false by (symmetry; apply Z.leb_gt; lia). reflexivity.
